@@ -64,7 +64,7 @@ CHECKS = {
    text="AEAD on the full 131x41 grid with bit-flip sweeps, X25519 on all small-order/non-canonical encodings with clamp noise, HKDF/HMAC/SHA-256 over length ranges. Histories over PrivateKey objects (new, generate, to_public, clone, clone_from, zeroize, DH) against a model of each object's current scalar. One message of 2^31 - 16 bytes (skipped with a note when memory is short).",
    note="kspec is the RFC reference (self-tested, OpenSSL-audited)."),
  "C20": dict(cat=E, ref="§5 C20", tech=PBT + "over generated clone/drop/move programs with allocator-side inspection at dealloc and read-back of inline storage",
-   text="Every container value (from bytes, generated, cloned, clone_from target, boxed, boxed behind other bytes, inline at every address residue mod 8, dropped normally or while unwinding) must have zeroed key bytes in the storage it owns at the moment that storage is released. Every constructor and clone additionally journals the heap blocks released while it runs: none may hold the stored secret. A whole key_encrypt + key_decrypt with every key supplied runs under the journal: no released block may hold one of the private keys.",
+   text="Every container value (from bytes, generated, cloned, clone_from target, boxed, boxed behind other bytes, inline at every address residue mod 8, dropped normally or while unwinding) must have zeroed key bytes in the storage it owns at the moment that storage is released. Constructors and clones run under a journal of released heap blocks; blocks holding the new key's bytes are counted as an observation only (a scratch buffer is not a key container and cannot be told from one there). A whole key_encrypt + key_decrypt with every key supplied runs under the journal: no released block may hold one of the private keys.",
    note="Only storage owned at drop time; not copies left by moves; run against the library built with and without debug assertions."),
 }
 NA_REASON = {}
